@@ -184,6 +184,10 @@ fn for_stmt(p: &mut Parser<'_>, m: Marker) {
         expressions::set_expression(p);
     } else if p.at(T!['[']) {
         expressions::range_expr(p);
+    } else if p.at(IDENT) && matches!(p.nth(1), IDENT | HARDWAREIDENT) {
+        // `for T i in name stmt`: the iterable is a single name and the body is a statement that
+        // starts with an identifier. As an expression, `name stmt` would look like a gate call.
+        expressions::atom::identifier(p);
     } else {
         expressions::expr(p);
     }
